@@ -68,6 +68,20 @@ def _unwrap_slices(func):
 Z, B, S = "Z", "bool", "list Z"
 F = "_rpc/_client.py"
 
+def _reject_unsealed(func):
+    """_process_response: the test of `if <...not pdu_header.auth_len...>: raise ...` placed after the unwrap
+    branch (rejecting a reply without security trailer on a sealed call); `false` when there is no such statement."""
+    from ..kernels import Translator, _module
+
+    for st in func.body:
+        if isinstance(st, ast.If) and len(st.body) == 1 and isinstance(st.body[0], ast.Raise) and not st.orelse:
+            src = ast.unparse(st.test)
+            if "auth_len" in src:
+                tr = Translator(_module(F), func, {"self__auth": "bool", "encrypt_offsets": "bool", "pdu_header_auth_len": "Z"}, False)
+                return tr.b(st.test), ast.unparse(st)
+    return "false", "<no statement rejects a reply without security trailer>"
+
+
 KERNELS = [
     # ---- C15: bind / auth handshake ---------------------------------------------------------
     K("k_bind_loop_guard", F, "SyncRpcClient.bind", ("while", 0), [("self__auth_complete", B)], B, props=("C15",)),
@@ -94,6 +108,8 @@ KERNELS = [
       [("self__auth", B), ("encrypt_offsets", B), ("pdu_header_auth_len", Z)], B, props=("C16",)),
     K("k_sec_trailer_offset", F, "RpcClient._process_response", ("assign", "sec_trailer_offset", 0),
       [("pdu_header_frag_len", Z), ("pdu_header_auth_len", Z)], Z, props=("C16", "C13")),
+    K("k_reject_unsealed", F, "RpcClient._process_response", ("custom", _reject_unsealed),
+      [("self__auth", B), ("encrypt_offsets", B), ("pdu_header_auth_len", Z)], B, props=("C16",)),
     K("k_unwrap_trailer_len", F, "RpcClient._process_response", ("custom", _unwrap_slices), [], Z, props=("C16",)),
     K("k_bind_result_accepted", "_client.py", "_process_bind_result", ("if", 0),
       [("c_result", Z), ("ContextResultCode_ACCEPTANCE", Z)], B, props=("C15",)),
